@@ -33,25 +33,11 @@ LOADS = {
 
 
 def find_call(v, suffix):
-    """First CallV (depth first) whose callee ends with suffix."""
-    v = core(v)
-    if isinstance(v, CallV):
-        if v.callee.endswith(suffix):
-            return v
-        for a in v.args:
-            r = find_call(a, suffix)
-            if r is not None:
-                return r
-    if isinstance(v, StructV):
-        for a in v.fields.values():
-            r = find_call(a, suffix)
-            if r is not None:
-                return r
-    if isinstance(v, PhiV):
-        for c, a in v.alts:
-            r = find_call(a, suffix)
-            if r is not None:
-                return r
+    """First CallV (depth first, through selections / adaptors / case splits) whose callee ends with suffix."""
+    import c11
+    for cv in c11.callvs(v):
+        if cv.callee.endswith(suffix):
+            return cv
     return None
 
 
@@ -59,6 +45,10 @@ def run(ctx):
     rep = ctx.rep
     for cfg in (CONFIGS_QUICK if ctx.tier == "quick" else CONFIGS_THOROUGH):
         crate = ctx.crate(cfg)
+        if cfg in ("K1", "K2", "K0"):
+            # the PRIVATE KEY label promises PKCS#8: the document stored for a generated key must be PKCS#8 by type
+            import c11
+            common.borrow_rules(rep, lambda: c11.check_generate(cfg, crate, rep), "C11.", "C14.doc")
         n = 0
         for fn, (label, src, via) in SITES.items():
             if fn not in crate.bodies:
